@@ -27,6 +27,10 @@ def cases(draw, tier="quick"):
     o = dict(comp=comp, X=draw(st.sampled_from(packlib.COMP_EXTRA[comp])), B=B, T=draw(st.booleans()), e=draw(st.booleans()), j=1, Q=None,
              devblk=None, defaults={}, source_date_epoch=draw(st.sampled_from([None, 1234567])), xattr_styles=[0], quote_all=False, loc_style=0, packdir_mode=1)
     case = dict(kind=kind, opts=o)
+    if draw(st.sampled_from([False, False, True])):
+        # an explicit default time stamp: SOURCE_DATE_EPOCH then is documented not to matter, so it joins the environment that is varied
+        o["defaults"] = {"mtime": draw(st.sampled_from([0, 0, 5, 1234567, 0xFFFFFFFF]))}
+        case["vary_sde"] = True
     nbig = draw(st.integers(2, 8))
     nsmall = draw(st.integers(3, 40))
     files = []
@@ -54,6 +58,11 @@ def cases(draw, tier="quick"):
         case.update(mode="dir" if kind == "gen_dir" else "file", nodes=nodes)
         if kind == "gen_dir":
             o.update(keep_time=draw(st.booleans()), keep_xattr=False, no_hard_links=False)
+        elif draw(st.sampled_from([False, False, True])):
+            # per-file packing flags from a sort file (order kept): what is decided for a block must not depend on which file the
+            # front end happens to have open when the block comes back from the pool
+            fl = st.lists(st.sampled_from(["dont_deduplicate", "dont_deduplicate", "dont_compress", "dont_fragment", "nosparse"]), unique=True, max_size=2)
+            case["sort_lines"] = [(i, draw(fl) if draw(st.sampled_from([False, False, True])) else [], n["path"]) for i, n in enumerate(nodes) if n["type"] == "file"]
     else:
         ents = []
         for i, (name, rec) in enumerate(fixed):
@@ -96,6 +105,8 @@ def run_variant(ctx, d, variant, j, Q, chaos, tz, loc, umask, ftime, stdout_kind
         stdin = None
     else:
         cmd = [vcommon.tool(variant, "tar2sqfs"), "-q", "-c", o["comp"], "-b", str(o["B"])] + (["-X", o["X"]] if o.get("X") else []) + (["-T"] if o["T"] else []) + (["-e"] if o["e"] else [])
+        if "mtime" in (o.get("defaults") or {}):
+            cmd += ["-d", "mtime=%d" % o["defaults"]["mtime"]]
         stdin = ctx["stdin"]
     if j is not None:
         cmd += ["-j", str(j)]
@@ -105,6 +116,8 @@ def run_variant(ctx, d, variant, j, Q, chaos, tz, loc, umask, ftime, stdout_kind
     env = {"TZ": tz, "LC_ALL": loc, "LANG": loc, "HOME": d}
     if o.get("source_date_epoch") is not None:
         env["SOURCE_DATE_EPOCH"] = str(o["source_date_epoch"])
+    if case.get("vary_sde") and ftime:
+        env["SOURCE_DATE_EPOCH"] = str(ftime % 4294967296)
     pre = None
     if shim and (chaos or ftime):
         pre = shim
